@@ -264,7 +264,7 @@ def check_unlink_effects(chk, prog, unit, doubly, only=None):
         mut_, pure_ = unit_effects(prog, unit)
         for kind in ("tail", "head"):
             for g, x in stores[kind]:
-                if any(re.search(r"_item_new$", X.callee_name(c_) or "") for c_ in X.calls_in(g.body)):
+                if any(classinfo.is_node_ctor(g.unit, X.callee_name(c_) or "") for c_ in X.calls_in(g.body)):
                     continue
                 key_ = (g.name, x["i"])
                 if key_ in _END_DONE:
@@ -327,7 +327,7 @@ def _link_flow(f, doubly, unit, tracked, entry_new, memo):
         if x.get("k") == "assign" and x.get("op") == "=":
             l0 = X.strip(x["ch"][0])
             rr = X.strip(x["ch"][1])
-            if l0.get("k") == "ref" and l0.get("d") in tracked and rr.get("k") == "call" and re.search(r"_item_new$", X.callee_name(rr) or ""):
+            if l0.get("k") == "ref" and l0.get("d") in tracked and rr.get("k") == "call" and classinfo.is_node_ctor(f.unit, X.callee_name(rr) or ""):
                 st = (st - {("fwd", l0["d"]), ("bwd", l0["d"])}) | {("new", l0["d"])}
             r = final_rhs(x)
             for d in tracked:
@@ -416,7 +416,7 @@ def check_insert_effects(chk, prog, unit, doubly, only=None):
             if x.get("k") == "assign" and x.get("op") == "=":
                 r = X.strip(x["ch"][1])
                 l = X.strip(x["ch"][0])
-                if r.get("k") == "call" and re.search(r"_item_new$", X.callee_name(r) or "") and l.get("k") == "ref" and l.get("rk") == "local":
+                if r.get("k") == "call" and classinfo.is_node_ctor(f.unit, X.callee_name(r) or "") and l.get("k") == "ref" and l.get("rk") == "local":
                     news.add(l["d"])
         if not news:
             continue
@@ -589,7 +589,7 @@ def ordering_sites(f):
         if x.get("k") == "assign" and x.get("op") == "=":
             r = X.strip(x["ch"][1])
             l = X.strip(x["ch"][0])
-            if r.get("k") == "call" and re.search(r"_item_new$", X.callee_name(r) or "") and l.get("k") == "ref":
+            if r.get("k") == "call" and classinfo.is_node_ctor(f.unit, X.callee_name(r) or "") and l.get("k") == "ref":
                 probes.add(l["d"])
     out = []
 
@@ -1421,7 +1421,7 @@ def check_dup_backlinks(chk, prog, unit="dlinked_list.c", only=None, rule="L7"):
                     l, r = X.strip(x["ch"][0]), X.strip(x["ch"][1])
                     st = set(state)
                     # creation through a next link
-                    if l.get("k") == "member" and l.get("n") == "next" and r is not None and r.get("k") == "call" and re.search(r"_item_dup$|_item_new$", X.callee_name(r) or ""):
+                    if l.get("k") == "member" and l.get("n") == "next" and r is not None and r.get("k") == "call" and (re.search(r"_item_dup$", X.callee_name(r) or "") or classinfo.is_node_ctor(f.unit, X.callee_name(r) or "")):
                         st.add(("pending", key_of(l)))
                         creations.append(x)
                         return frozenset(st)
